@@ -205,7 +205,7 @@ def part_generated(ctx, cfgs):
             gen_keys.add(key)
             ctx.violation("failing-input", f"configurations disagree on a generated program: {groups[0][:3]} vs {groups[1][:3]}",
                           {"source": prog.vy(prune=True), "groups": groups, "shapes": shapes,
-                           "calls": [{"function": prog.exts[c.fidx].abi_sig(), "calldata": H.calldata(prog.exts[c.fidx], c).hex(),
+                           "calls": [{"function": H.fun_of(prog, c).abi_sig(), "calldata": H.calldata(H.fun_of(prog, c), c).hex(),
                                       "sender": c.sender, "value": c.value} for c in calls],
                            "vs_source_semantics": {a: da, bname: db}},
                           key=key)
